@@ -44,7 +44,11 @@ def main():
             checks = a.split("=", 1)[1].split(",")
     meta = json.load(open(os.path.join(out, "meta.json")))
     patch = os.path.join(out, "patch.diff")
-    wt = "/tmp/seedver-" + pid
+    phase = os.environ.get("SEEDCHECK_PHASE", "")  # "confirm": worktree part only (parallelisable); "check": /repo part only
+    if phase == "check":
+        rec = json.load(open(os.path.join(out, "confirm.json")))
+        return repo_checks(rec, patch, checks)
+    wt = "/tmp/seedver-%s-%d" % (pid, os.getpid())
     sh(["git", "-C", "/repo", "worktree", "remove", "--force", wt])
     rc, o = sh(["git", "-C", "/repo", "worktree", "add", "--detach", wt, "HEAD"])
     if rc != 0:
@@ -88,6 +92,13 @@ def main():
         rec["demo_output_with_change"] = o1[-600:]
     finally:
         sh(["git", "-C", "/repo", "worktree", "remove", "--force", wt])
+    if phase == "confirm":
+        json.dump(rec, open(os.path.join(out, "confirm.json"), "w"), indent=1)
+        return rec
+    return repo_checks(rec, patch, checks)
+
+
+def repo_checks(rec, patch, checks):
     # our checks against it
     rec["checks"] = {}
     rc, o = sh(["git", "-C", "/repo", "apply", patch])
@@ -111,6 +122,8 @@ if __name__ == "__main__":
     out = sys.argv[2] if len(sys.argv) > 2 and not sys.argv[2].startswith("--") else "/tmp/seed-out/" + pid
     rec = main()
     print(json.dumps(rec, indent=1)[:3000])
+    if os.environ.get("SEEDCHECK_PHASE", "") == "confirm":
+        sys.exit(0)
     keep = rec.get("patch_applies") and rec.get("existing_tests_pass_with_change") and rec.get("demo_fails_with_change") and rec.get("demo_passes_without_change")
     rec["kept"] = bool(keep)
     if keep:
